@@ -270,10 +270,12 @@ class RxAlphabet:
 
 
 def rx_program(exprs, first, uses):
-    """One DSL program evaluating exprs (results numbered 100 * g + first ...) for every use g = (regex operand, replacement)
-    on every row and printing NR|number|typeof|text."""
+    """One DSL program evaluating exprs (results numbered 100 * g + first ...) for every use g = (regex operand, replacement,
+    statement to put in front) on every row and printing NR|number|typeof|text."""
     out = []
-    for g, (R, T) in enumerate(uses):
+    for g, (R, T, pre) in enumerate(uses):
+        if pre:
+            out.append(pre)
         for k, e in enumerate(exprs):
             i = 100 * g + first + k
             out.append("r%d = %s;" % (i, e.replace("{R}", R).replace("{T}", T)))
@@ -281,6 +283,24 @@ def rx_program(exprs, first, uses):
             i = 100 * g + first + k
             out.append(RX_SHOW % ((i,) * 7))
     return " ".join(out)
+
+
+def rx_use(sp, g, p, ra):
+    """How the regex of pattern p is written in spelling sp (use number g of a program): (operand, replacement, preamble)."""
+    P, T = ra.text(p["text"]), ra.text(p["t"])
+    if sp == "var":                          # the regex held in a local variable
+        return "v%d" % g, T, 'v%d = "%s";' % (g, P)
+    if sp in ("field", "fieldflag"):
+        return "$r", T, ""
+    return RX_SPELL[sp] % P, T, ""
+
+
+def rx_spellings(p, ci):
+    """The spellings a pattern is evaluated in.  A regex with a backslash is not put into a variable: a string literal that is
+    not in regex position reads backslash sequences differently (reference-main-regular-expressions.md, last section)."""
+    if ci:
+        return ("liti", "flag", "fieldflag")
+    return ("lit", "field") + (() if "bsl" in p["text"] else ("var",))
 
 
 def rx_mx(payload, ra):
@@ -321,24 +341,25 @@ RX_MX0 = {"keys": [], "full": [], "fs": 0, "fe": 0, "caps": [], "st": [], "en": 
 RX_GROUP = 8
 
 
-def rx_call_jobs(mlr, pats, subjects, ra):
-    """The processes of the "call" family.  Literal spellings: one process per (RX_GROUP patterns of one alphabet, spelling,
-    program X / Y) over all subjects of that alphabet; field spellings: rows (subject, regex text) of many patterns per process."""
+def rx_call_jobs(mlr, pats, pis_all, subjects, ra):
+    """The processes of the "call" family for the patterns pis_all.  Literal and variable spellings: one process per (RX_GROUP
+    patterns of one alphabet, spelling, program X / Y) over all subjects of that alphabet; field spellings: rows (subject,
+    regex text) of many patterns per process."""
     jobs = []            # (case, meta)  meta = (first, spelling, [[(pattern index, subject index) of row 1, row 2 ...] per use g])
     for sa in sorted(subjects):
-        pis = [pi for pi, p in enumerate(pats) if p["sa"] == sa]
         rows = "".join(json.dumps({"s": ra.text(s)}, ensure_ascii=False) + "\n" for s in subjects[sa])
-        for k in range(0, len(pis), RX_GROUP):
-            grp = pis[k:k + RX_GROUP]
-            for sp in ("lit", "liti", "flag"):
-                uses = [(RX_SPELL[sp] % ra.text(pats[pi]["text"]), ra.text(pats[pi]["t"])) for pi in grp]
+        for sp in ("lit", "liti", "flag", "var"):
+            pis = [pi for pi in pis_all if pats[pi]["sa"] == sa and sp in rx_spellings(pats[pi], sp in ("liti", "flag"))]
+            for k in range(0, len(pis), RX_GROUP):
+                grp = pis[k:k + RX_GROUP]
+                uses = [rx_use(sp, g, pats[pi], ra) for g, pi in enumerate(grp)]
                 for first, exprs in ((1, RX_X), (9, RX_Y)):
                     jobs.append(({"argv": [mlr, "--ijsonl", "put", "-q", rx_program(exprs, first, uses)], "stdin": rows, "env": ENV,
                                   "timeout_ms": 60000, "max_out": 64 << 20},
                                  (first, sp, [[(pi, si) for si in range(len(subjects[sa]))] for pi in grp])))
     byT = {}
-    for pi, p in enumerate(pats):
-        byT.setdefault(ra.text(p["t"]), []).append(pi)
+    for pi in pis_all:
+        byT.setdefault(ra.text(pats[pi]["t"]), []).append(pi)
     for T, pis in sorted(byT.items()):
         for sp in ("field", "fieldflag"):
             pairs = [(pi, si) for pi in pis for si in range(len(subjects[pats[pi]["sa"]]))]
@@ -348,7 +369,7 @@ def rx_call_jobs(mlr, pats, subjects, ra):
                                            "r": ("(?i)" if sp == "fieldflag" else "") + ra.text(pats[pi]["text"])}, ensure_ascii=False) + "\n"
                                for pi, si in part)
                 for first, exprs in ((1, RX_X), (9, RX_Y)):
-                    jobs.append(({"argv": [mlr, "--ijsonl", "put", "-q", rx_program(exprs, first, [("$r", T)])], "stdin": rows, "env": ENV,
+                    jobs.append(({"argv": [mlr, "--ijsonl", "put", "-q", rx_program(exprs, first, [("$r", T, "")])], "stdin": rows, "env": ENV,
                                   "timeout_ms": 120000, "max_out": 64 << 20}, (first, sp, [part])))
     return jobs
 
@@ -396,15 +417,16 @@ def rx_out_of(ent, ra):
     return {"exit": exit_, "v": v, "x": x}
 
 
-def rx_call_obs(pats, subjects, table, ra):
+def rx_call_obs(pats, pis, subjects, table, ra):
     """One line per (pattern, case mode); spellings with the same output share one entry."""
     obs, index = [], []         # index[line] = (pattern index, ci)
-    for pi, p in enumerate(pats):
-        for ci, sps in ((False, ("lit", "field")), (True, ("liti", "flag", "fieldflag"))):
+    for pi in pis:
+        p = pats[pi]
+        for ci in (False, True):
             subs = []
             for si, s in enumerate(subjects[p["sa"]]):
                 outs = []
-                for sp in sps:
+                for sp in rx_spellings(p, ci):
                     o = rx_out_of(table[(pi, si, sp)], ra)
                     for prev in outs:
                         if all(prev[k] == o[k] for k in ("exit", "v", "x")):
@@ -467,7 +489,8 @@ def rx_verb(vb, ra):
             body = pre + body
         return ["put", body]
     if v in ("sub", "gsub", "ssub"):
-        return [v, "-f", ",".join(ra.text(n) for n in vb["f"]), ra.text(vb["rx"]["tx"]), ra.text(vb["a"])]
+        sel = {"f": lambda: ["-f", ",".join(ra.text(n) for n in vb["f"])], "r": lambda: ["-r", ra.text(vb["rs"][0]["tx"])], "a": lambda: ["-a"]}[vb["m"]]()
+        return [v] + sel + [ra.text(vb["rx"]["tx"]), ra.text(vb["a"])]
     if v == "cut":
         return ["cut"] + (["-x"] if vb["g"] else []) + ["-r", "-f", ",".join(rx_verb_regex(r, ra) for r in vb["rs"])]
     if v == "having-fields":
@@ -583,78 +606,22 @@ def rx_multibyte(toks):
     return any(t in ("e2", "c3") for t in toks)
 
 
-def rx_section(tier, seed, V, cov_all):
-    """The regex section. Returns (states, transitions, judged observations, evaluations, distinct non-trivial evaluations)."""
-    t0 = time.time()
-    thorough = tier == "thorough"
-    level = 4 if thorough else 3
-    jobsn = int(os.environ.get("VERIF_JOBS", 8))
-    mlr = os.environ.get("VERIF_C15_MLR") or vlib.build_mlr()
-    ra = RxAlphabet(seed)
-    cov = {"tlc_runs": [], "samples": [], "binary": mlr, "representatives": {k: ra.rep[k] for k in ("a", "A", "b", "B", "e2")}}
-    cov_all["regex"] = cov
-    vlib.build_harness("runner", tags="")
+RX_SLICE = 480          # patterns run, judged and forgotten together (bounds the memory of the thorough tier)
+RX_CALL_CORRUPTIONS = ["gsub-first-only", "capture-off-by-one", "strmatchx-index-shifted", "case-flag-ignored", "regextract-not-absent"]
+RX_PROG_CORRUPTIONS = ["record-lost", "captures-kept-after-failed-match", "second-use-cached"]
 
-    # ---- laws (in the background) and the case space ------------------------------------------------------------
-    pool = ThreadPoolExecutor(4)
-    laws_f = pool.submit(b3.check_laws, "RegexMC", {"L": level}, ("Laws",), 3000)
 
-    def gen(fam):
-        cases, g = b3.gen_cases("RegexGen", {"L": level, "Fam": '"%s"' % fam}, timeout=3000)
-        return fam, cases, g
-    fams = ["patterns", "subjects:std", "subjects:dot"] + RX_FAMS
-    gens = dict((fam, (cases, g)) for fam, cases, g in pool.map(gen, fams))
-    states = sum(g.distinct for _, g in gens.values())
-    transitions = sum(g.generated for _, g in gens.values())
-    pats = sorted(gens["patterns"][0], key=lambda p: json.dumps(p["text"]))
-    subjects = {"std": sorted([c["s"] for c in gens["subjects:std"][0]], key=lambda s: (len(s), s)),
-                "dot": sorted([c["s"] for c in gens["subjects:dot"][0]], key=lambda s: (len(s), s))}
-    progs = [(fam, p) for fam in RX_FAMS for p in sorted(gens[fam][0], key=lambda p: json.dumps(p, sort_keys=True))]
-    for fam in fams:
-        cov["tlc_runs"].append({"module": "RegexGen", "family": fam, "cases": len(gens[fam][0])})
-    vlib.log("[c15/regex] %d patterns, %d+%d subjects, %d programs generated in %.0fs" % (
-        len(pats), len(subjects["std"]), len(subjects["dot"]), len(progs), time.time() - t0))
-
-    # ---- run: the call family (many subjects per process) and the programs (one process each) -----------------------
-    cjobs = rx_call_jobs(mlr, pats, subjects, ra)
-    pcases = [rx_prog_case(mlr, p, ra) for _, p in progs]
-    allcases = [c for c, _ in cjobs] + pcases
-    res = vlib.run_cases(allcases)
-    vlib.confirm_timeouts(allcases, res)
-    cres, pres = res[:len(cjobs)], res[len(cjobs):]
-    table = rx_call_collect(cjobs, cres)
-    cobs, cindex = rx_call_obs(pats, subjects, table, ra)
-    pobs = [{"fam": "prog", "p": p, "exit": (-2 if r["timed_out"] else r["exit"]), "out": rx_prog_out(r["stdout"], ra)}
-            for (_, p), r in zip(progs, pres)]
-    nsub = sum(len(o["subs"]) for o in cobs)
-    vlib.log("[c15/regex] %d processes run (%d for %d pattern x mode x subject triples in 5 spellings, %d programs), %.0fs" % (
-        len(allcases), len(cjobs), nsub, len(pcases), time.time() - t0))
-
-    # ---- judge -------------------------------------------------------------------------------------------------------
+def rx_call_slice(mlr, pats, pis, subjects, ra, jobsn, V, want):
+    """Runs and judges the call family for the patterns pis. Returns counts."""
+    cjobs = rx_call_jobs(mlr, pats, pis, subjects, ra)
+    cases = [c for c, _ in cjobs]
+    res = vlib.run_cases(cases)
+    vlib.confirm_timeouts(cases, res)
+    table = rx_call_collect(cjobs, res)
+    del res
+    cobs, cindex = rx_call_obs(pats, pis, subjects, table, ra)
     per_c = max(8, (len(cobs) + 2 * jobsn - 1) // (2 * jobsn))
     cbad, _, n1 = rx_validate(cobs, per_c, jobsn)
-    per_p = max(50, (len(pobs) + jobsn - 1) // jobsn)
-    pbad, punc, n2 = rx_validate(pobs, per_p, jobsn)
-    states += n1 + n2
-    transitions += n1 + n2
-    vlib.log("[c15/regex] judged, %.0fs" % (time.time() - t0))
-
-    laws = laws_f.result()
-    pool.shutdown()
-    if laws.violated:
-        raise vlib.Inconclusive("Regex.tla violates its own laws: %s\n%s" % (laws.violated, laws.out[-2000:]))
-    if any(isinstance(x, list) and x and x[0] == "law fails" for x in laws.printed):
-        raise vlib.Inconclusive("Regex.tla violates its own laws: %r" % [x for x in laws.printed if isinstance(x, list)][:3])
-    states += laws.distinct
-    transitions += laws.generated
-    cov["tlc_runs"].append({"module": "RegexMC", "L": level, "distinct_states": laws.distinct, "result": "no error",
-                            "laws": "found = exists, found is a match (independent positional language), leftmost, longest for one greedy item, "
-                                    "submatches inside the match, all-matches successive / non-overlapping / nothing skipped, no match = identity, "
-                                    "one match: gsub = sub, replacing by \\0 = identity, regextract / =~ / strmatchx agree, s[full_start:full_end] = "
-                                    "full_capture, case-insensitive = folded subject, folding only adds matches (no negated class), nullable = "
-                                    "matches the empty string, group count = parentheses of the text"})
-
-    # ---- violations ----------------------------------------------------------------------------------------------------
     for li, bads in sorted(cbad.items()):
         pi, ci = cindex[li]
         p = pats[pi]
@@ -672,11 +639,60 @@ def rx_section(tier, seed, V, cov_all):
             row = {"s": ra.text(s)}
             if sp.startswith("field"):
                 row["r"] = ("(?i)" if sp == "fieldflag" else "") + ra.text(p["text"])
-            R = RX_SPELL[sp] % ra.text(p["text"]) if not sp.startswith("field") else "$r"
-            prog = rx_program(RX_X if i <= 8 else RX_Y, 1 if i <= 8 else 9, [(R, ra.text(p["t"]))])
+            prog = rx_program(RX_X if i <= 8 else RX_Y, 1 if i <= 8 else 9, [rx_use(sp, 0, p, ra)])
             V.violation(key, {"pattern": ra.text(p["text"]), "case_insensitive": ci, "spellings": sps, "subject": ra.text(s), "result": i,
                               "function": RX_FN[i], "observed": ent[1].get(i), "replacement": ra.text(p["t"]), "program": prog, "row": row,
                               "replay": "echo '%s' | mlr --ijsonl put -q '%s'" % (json.dumps(row, ensure_ascii=False), prog)})
+    rx_call_candidates(cobs, cbad, want)
+    nsub = sum(len(o["subs"]) for o in cobs)
+    evaluations = sum(12 * len(o["sp"].split("+")) for o_ in cobs for sub in o_["subs"] for o in sub["outs"])
+    sample = cjobs[len(cjobs) // 3][0]["argv"][-1][:400]
+    return {"states": n1, "nsub": nsub, "evaluations": evaluations, "processes": len(cjobs), "bad": sum(len(b) for b in cbad.values()),
+            "sample": sample}
+
+
+def rx_section(tier, seed, V, cov_all):
+    """The regex section. Returns (states, transitions, judged observations, evaluations, distinct non-trivial evaluations)."""
+    t0 = time.time()
+    thorough = tier == "thorough"
+    level = 4 if thorough else 3
+    jobsn = int(os.environ.get("VERIF_JOBS", 8))
+    mlr = os.environ.get("VERIF_C15_MLR") or vlib.build_mlr()
+    ra = RxAlphabet(seed)
+    cov = {"tlc_runs": [], "samples": [], "binary": mlr, "representatives": {k: ra.rep[k] for k in ("a", "A", "b", "B", "e2")}}
+    cov_all["regex"] = cov
+    vlib.build_harness("runner", tags="")
+
+    # ---- laws (in the background) and the case space ------------------------------------------------------------
+    pool = ThreadPoolExecutor(4)
+    laws_f = pool.submit(b3.check_laws, "RegexMC", {"L": level}, ("Laws",), 6000)
+
+    def gen(fam):
+        cases, g = b3.gen_cases("RegexGen", {"L": level, "Fam": '"%s"' % fam}, timeout=3000)
+        return fam, cases, g
+    fams = ["patterns", "subjects:std", "subjects:dot"] + RX_FAMS
+    gens = dict((fam, (cases, g)) for fam, cases, g in pool.map(gen, fams))
+    states = sum(g.distinct for _, g in gens.values())
+    transitions = sum(g.generated for _, g in gens.values())
+    pats = sorted(gens["patterns"][0], key=lambda p: json.dumps(p["text"]))
+    subjects = {"std": sorted([c["s"] for c in gens["subjects:std"][0]], key=lambda s: (len(s), s)),
+                "dot": sorted([c["s"] for c in gens["subjects:dot"][0]], key=lambda s: (len(s), s))}
+    progs = [(fam, p) for fam in RX_FAMS for p in sorted(gens[fam][0], key=lambda p: json.dumps(p, sort_keys=True))]
+    for fam in fams:
+        cov["tlc_runs"].append({"module": "RegexGen", "family": fam, "cases": len(gens[fam][0])})
+    vlib.log("[c15/regex] %d patterns, %d+%d subjects, %d programs generated in %.0fs" % (
+        len(pats), len(subjects["std"]), len(subjects["dot"]), len(progs), time.time() - t0))
+
+    # ---- the programs: one process each ---------------------------------------------------------------------------------
+    pcases = [rx_prog_case(mlr, p, ra) for _, p in progs]
+    pres = vlib.run_cases(pcases)
+    vlib.confirm_timeouts(pcases, pres)
+    pobs = [{"fam": "prog", "p": p, "exit": (-2 if r["timed_out"] else r["exit"]), "out": rx_prog_out(r["stdout"], ra)}
+            for (_, p), r in zip(progs, pres)]
+    per_p = max(50, (len(pobs) + jobsn - 1) // jobsn)
+    pbad, punc, n2 = rx_validate(pobs, per_p, jobsn)
+    states += n2
+    transitions += n2
     for li in sorted(pbad):
         fam, p = progs[li]
         c, r = pcases[li], pres[li]
@@ -687,23 +703,55 @@ def rx_section(tier, seed, V, cov_all):
         V.violation(key, {"argv": c["argv"][1:], "stdin": c["stdin"], "exit": r["exit"], "stdout": r["stdout"][:2000], "stderr": r["stderr"][:600],
                           "first_difference": {"record": int(rec_i), "field": int(fld_i), "part": part},
                           "replay": "printf '%s' | mlr %s" % (c["stdin"].replace("\n", "\\n"), " ".join("'%s'" % a for a in c["argv"][1:]))})
+    vlib.log("[c15/regex] %d programs run and judged (%d not constrained, %d not conforming), %.0fs" % (
+        len(pobs), len(punc), len(pbad), time.time() - t0))
+
+    # ---- the call family, a slice of patterns at a time --------------------------------------------------------------------
+    want = {n: None for n in RX_CALL_CORRUPTIONS}
+    tot = {"states": 0, "nsub": 0, "evaluations": 0, "processes": 0, "bad": 0}
+    order = list(range(len(pats)))
+    for k in range(0, len(order), RX_SLICE):
+        st = rx_call_slice(mlr, pats, order[k:k + RX_SLICE], subjects, ra, jobsn, V, want)
+        for f in tot:
+            tot[f] += st[f]
+        if k == 0:
+            cov["samples"].append({"program": st["sample"]})
+        vlib.log("[c15/regex] patterns %d..%d: %d processes, %d pattern x mode x subject triples judged, %.0fs" % (
+            k + 1, min(k + RX_SLICE, len(order)), st["processes"], st["nsub"], time.time() - t0))
+    states += tot["states"]
+    transitions += tot["states"]
+
+    laws = laws_f.result()
+    pool.shutdown()
+    if laws.violated:
+        raise vlib.Inconclusive("Regex.tla violates its own laws: %s\n%s" % (laws.violated, laws.out[-2000:]))
+    if any(isinstance(x, list) and x and x[0] == "law fails" for x in laws.printed):
+        raise vlib.Inconclusive("Regex.tla violates its own laws: %r" % [x for x in laws.printed if isinstance(x, list)][:3])
+    states += laws.distinct
+    transitions += laws.generated
+    cov["tlc_runs"].append({"module": "RegexMC", "L": level, "distinct_states": laws.distinct, "result": "no error",
+                            "laws": "found = exists, found is a match (independent positional language), leftmost, longest for one greedy item, "
+                                    "submatches inside the match, all-matches successive / non-overlapping / nothing skipped, no match = identity, "
+                                    "one match: gsub = sub, replacing by \\0 = identity, regextract / =~ / strmatchx agree, s[full_start:full_end] = "
+                                    "full_capture, case-insensitive = folded subject, folding only adds matches (no negated class), nullable = "
+                                    "matches the empty string, group count = parentheses of the text"})
+    vlib.log("[c15/regex] laws checked, %.0fs" % (time.time() - t0))
 
     # ---- non-vacuity of the judge: corrupted copies of conforming observations must be reported ---------------------
-    tests = rx_selftest(cobs, cbad, pobs, pbad, punc)
+    tests = rx_selftest(want, tot["bad"], pobs, pbad, punc)
     cov["obs_selftest"] = tests
     if tests["ok"] is False:
         raise vlib.Inconclusive("regex observation self-test failed: %r" % tests)
 
     # ---- coverage ----------------------------------------------------------------------------------------------------
-    evaluations = sum(12 * len(sub["outs"][0]["sp"].split("+")) if len(sub["outs"]) == 1 else 12 * sum(len(o["sp"].split("+")) for o in sub["outs"])
-                      for o_ in cobs for sub in o_["subs"])
-    nontrivial = sum(1 for pi, p in enumerate(pats) for s in subjects[p["sa"]] if rx_multibyte(s) or any(ch in ("A", "B") for ch in s)) * 2 * 12
+    nontrivial = sum(1 for p in pats for s in subjects[p["sa"]] if rx_multibyte(s) or any(ch in ("A", "B") for ch in s)) * 2 * 12
     operations = sum(len(vb["st"]) if vb["v"] == "put" else 1 for _, p in progs for vb in p["chain"])
     cov.update({
         "patterns": len(pats), "subjects": {k: len(v) for k, v in subjects.items()},
-        "pattern_subject_pairs": nsub // 2, "spellings": ["\"P\"", "\"P\"i", "\"(?i)P\"", "$r = P", "$r = (?i)P"],
+        "pattern_subject_pairs": tot["nsub"] // 2,
+        "spellings": ["\"P\"", "\"P\"i", "\"(?i)P\"", "$r = P", "$r = (?i)P", "v = \"P\" (patterns without a backslash)"],
         "functions": ["sub", "gsub", "regextract", "regextract_or_else", "strmatch", "strmatchx", "=~", "!=~", "\\0..\\9 after =~ / !=~"],
-        "call_evaluations": evaluations, "call_processes": len(cjobs),
+        "call_evaluations": tot["evaluations"], "call_processes": tot["processes"],
         "programs": {fam: len(gens[fam][0]) for fam in RX_FAMS}, "program_processes": len(pcases), "program_operations": operations,
         "programs_unconstrained": len(punc), "programs_judged": len(pobs) - len(punc),
         "nullable_patterns": sum(1 for p in pats if p["nul"]), "patterns_with_groups": sum(1 for p in pats if p["ng"] > 0),
@@ -711,20 +759,13 @@ def rx_section(tier, seed, V, cov_all):
     })
     k = len(pobs) // 2
     cov["samples"].append({"argv": pcases[k]["argv"][1:], "stdin": pcases[k]["stdin"], "stdout": pres[k]["stdout"][:600]})
-    cov["samples"].append({"program": cjobs[len(cjobs) // 3][0]["argv"][-1][:400]})
-    return states, transitions, nsub * 1 + len(pobs) - len(punc), evaluations + operations, nontrivial + len(pobs) - len(punc)
+    return states, transitions, tot["nsub"] + len(pobs) - len(punc), tot["evaluations"] + operations, nontrivial + len(pobs) - len(punc)
 
 
-def rx_selftest(cobs, cbad, pobs, pbad, punc):
-    """Corrupted copies of conforming observations (gsub stopping after the first match, a capture shifted, a byte index,
-    the case flag ignored, a record lost, a captured text kept after a failed match ...) must each be reported."""
-    lines, names = [], []
-
+def rx_call_candidates(cobs, cbad, want):
+    """Looks for conforming observations of the call family that the self-test can corrupt (fills `want`)."""
     def call_line(o, sub):
         return {"fam": "call", "re": o["re"], "ci": o["ci"], "t": o["t"], "subs": [sub]}
-    want = {"gsub-first-only": None, "capture-off-by-one": None, "strmatchx-index-shifted": None, "case-flag-ignored": None,
-            "regextract-not-absent": None}
-    # (the cs line of the same pattern and subject, for "case-flag-ignored")
     badsubs = {(li, int(b_[0]) - 1) for li, bs in cbad.items() for b_ in bs}
     for li, o in enumerate(cobs):
         if all(v is not None for v in want.values()):
@@ -733,17 +774,16 @@ def rx_selftest(cobs, cbad, pobs, pbad, punc):
             if len(sub["outs"]) != 1 or (li, si) in badsubs or sub["outs"][0]["exit"] != 0:
                 continue
             v = sub["outs"][0]["v"]
-            if want["gsub-first-only"] is None and v[2]["s"] != v[0]["s"]:
+            x = sub["outs"][0]["x"]
+            if want["gsub-first-only"] is None and v[2]["s"] != v[0]["s"]:                 # gsub gives what sub gives
                 a = copy.deepcopy(sub)
                 a["outs"][0]["v"][2] = copy.deepcopy(v[0])
                 want["gsub-first-only"] = (call_line(o, a), call_line(o, sub))
-            if want["capture-off-by-one"] is None and v[8]["s"] == ["true"] and len(sub["outs"][0]["x"]["caps"]) >= 2 \
-                    and sub["outs"][0]["x"]["caps"][0] != sub["outs"][0]["x"]["caps"][1]:
-                a = copy.deepcopy(sub)
-                caps = sub["outs"][0]["x"]["caps"]
-                a["outs"][0]["v"][9]["s"] = ["lt"] + sub["outs"][0]["x"]["full"] + ["colon"] + caps[1] + ["colon"] + caps[0] + ["gt"]
+            if want["capture-off-by-one"] is None and v[8]["s"] == ["true"] and len(x["caps"]) >= 2 and x["caps"][0] != x["caps"][1]:
+                a = copy.deepcopy(sub)                                                      # "<\0:\1:\2>" with \1 and \2 exchanged
+                a["outs"][0]["v"][9]["s"] = ["lt"] + x["full"] + ["colon"] + x["caps"][1] + ["colon"] + x["caps"][0] + ["gt"]
                 want["capture-off-by-one"] = (call_line(o, a), call_line(o, sub))
-            if want["strmatchx-index-shifted"] is None and sub["outs"][0]["x"]["fs"] >= 2:
+            if want["strmatchx-index-shifted"] is None and x["fs"] >= 2:
                 a = copy.deepcopy(sub)
                 a["outs"][0]["x"]["fs"] += 1
                 a["outs"][0]["x"]["fe"] += 1
@@ -753,13 +793,21 @@ def rx_selftest(cobs, cbad, pobs, pbad, punc):
                 a["outs"][0]["v"][4] = {"k": "error", "s": []}
                 want["regextract-not-absent"] = (call_line(o, a), call_line(o, sub))
             if want["case-flag-ignored"] is None and o["ci"] and li > 0 and (li - 1, si) not in badsubs and cobs[li - 1]["re"] == o["re"]:
-                other = cobs[li - 1]["subs"][si]
+                other = cobs[li - 1]["subs"][si]                                            # the "P"i results replaced by the "P" results
                 if len(other["outs"]) == 1 and other["outs"][0]["v"] != v and other["outs"][0]["exit"] == 0:
                     a = copy.deepcopy(sub)
                     a["outs"][0]["v"] = copy.deepcopy(other["outs"][0]["v"])
                     a["outs"][0]["x"] = copy.deepcopy(other["outs"][0]["x"])
                     want["case-flag-ignored"] = (call_line(o, a), call_line(o, sub))
-    pw = {"record-lost": None, "captures-kept-after-failed-match": None, "second-use-cached": None}
+
+
+def rx_selftest(want, ncbad, pobs, pbad, punc):
+    """Corrupted copies of conforming observations (gsub stopping after the first match, captures exchanged, an index shifted,
+    the case flag ignored, an error instead of absent, a record lost, a captured text after a failed match, the second use
+    of a regex giving what the first gave) must each be reported, and their originals must not."""
+    lines, names = [], []
+    want = dict(want)
+    pw = {n: None for n in RX_PROG_CORRUPTIONS}
     for li, o in enumerate(pobs):
         if li in pbad or li in punc or o["exit"] != 0 or not o["out"]:
             continue
@@ -791,13 +839,14 @@ def rx_selftest(cobs, cbad, pobs, pbad, punc):
             names.append(name)
             lines += [pair[0], pair[1]]
     missing = [n for n, pair in want.items() if pair is None]
+    broken = bool(ncbad or pbad)
     if not lines:
-        return {"ok": None if (cbad or pbad) else False, "why": "no conforming candidate", "skipped_no_conforming_candidate": missing}
+        return {"ok": None if broken else False, "why": "no conforming candidate", "skipped_no_conforming_candidate": missing}
     bad, _, _ = rx_validate(lines, len(lines), 1)
     reported = sorted(bad)
     ok = reported == list(range(0, len(lines), 2))
     # (a candidate may be missing on a tree that breaks the property; missing candidates on a conforming run mean a broken case space)
-    if missing and not (cbad or pbad):
+    if missing and not broken:
         ok = False
     return {"ok": ok, "reported": reported, "corruptions": names, "skipped_no_conforming_candidate": missing}
 
